@@ -33,6 +33,7 @@
 package c19
 
 import (
+	fwdefn "github.com/named-data/ndnd/fw/defn"
 	"fmt"
 	"os"
 	"sort"
@@ -492,6 +493,21 @@ func gen(g *common.Gen) {
 			genWire(g, r)
 			continue
 		}
+		if i%60 == 14 {
+			// a site with hundreds of prefixes and a peer that joins late (gap > 100: it starts from the snapshot)
+			g.Op("new log 1")
+			g.Stat("log-history")
+			g.Stat("bulk-episode")
+			g.Op("bulk %d", common.Pick(r, []int{40, 150, 400, 1200}))
+			g.Op("burst %d", common.Pick(r, []int{0, 3, 101}))
+			g.Op("reach 1")
+			g.Op("sync 1 0")
+			g.Op("drain 1")
+			g.Op("ann %d", 100+r.Intn(numApp))
+			g.Op("sync 1 0")
+			g.Op("drain 1")
+			continue
+		}
 		if i%3 == 2 {
 			genLog(g, r)
 		} else {
@@ -874,8 +890,14 @@ func dumpPeer(b int) string {
 	return fmt.Sprintf("known=%d latest=%d fetching=%d set=%s pend=%s", r.Known, r.Latest, fe, dash(prefixIds(r)), pendText(b))
 }
 
-// answer the oldest pending Interest of peer b from the publisher's repo; false if no Data exists
+// tooBig: size of the last Data the publisher answered with that cannot cross any face of a forwarder
+// (fw/defn.MaxNDNPacketSize); 0 when the last answer fitted
+var tooBig int
+
+// answer the oldest pending Interest of peer b from the publisher's repo; false if no Data exists or the Data
+// is larger than any NDN packet may be (the forwarder drops it: the Interest stays outstanding)
 func deliverOne(b int) bool {
+	tooBig = 0
 	p := pend[b][0]
 	sp := spec.Spec{}
 	ei, err := sp.MakeInterest(p.Name, &ndn.InterestConfig{CanBePrefix: p.CanBePrefix, MustBeFresh: true,
@@ -893,6 +915,10 @@ func deliverOne(b int) bool {
 		Reply:    func(w enc.Wire) error { reply = w; return nil },
 	})
 	if reply == nil {
+		return false
+	}
+	if n := len(reply.Join()); n > fwdefn.MaxNDNPacketSize {
+		tooBig = n
 		return false
 	}
 	data, _, err := sp.ReadData(enc.NewWireReader(reply))
@@ -968,6 +994,7 @@ func readvertiseRaw(nd *dvsim.Node, comps int, module, cmd string, params []byte
 
 func execLog(f []string) string {
 	a := sim.Nodes[0]
+	tooBig = 0
 	bOf := func(s string) (int, bool) {
 		b := common.Atoi(s)
 		return b, b >= 1 && b < len(sim.Nodes)
@@ -1030,6 +1057,17 @@ func execLog(f []string) string {
 		}
 		for i := 0; i < m; i++ {
 			toggle(100 + (i*3)%numApp)
+		}
+		sim.Settle()
+		return dumpPub()
+	case "bulk":
+		// a site announces m prefixes (/big/1000 …)
+		m := common.Atoi(f[1])
+		if m < 1 || m > 2000 {
+			return "skip"
+		}
+		for i := 0; i < m; i++ {
+			a.R.VerifPfx().Announce(pfxName(1000 + i))
 		}
 		sim.Settle()
 		return dumpPub()
@@ -1096,6 +1134,9 @@ func execLog(f []string) string {
 			return "skip"
 		}
 		if !deliverOne(b) {
+			if tooBig > 0 {
+				return fmt.Sprintf("%s toobig=%d", dumpPeer(b), tooBig)
+			}
 			return "noreply " + dumpPeer(b)
 		}
 		return dumpPeer(b)
@@ -1122,6 +1163,9 @@ func execLog(f []string) string {
 				break
 			}
 			steps++
+		}
+		if tooBig > 0 {
+			return fmt.Sprintf("%s steps=%d toobig=%d", dumpPeer(b), steps, tooBig)
 		}
 		return fmt.Sprintf("%s steps=%d", dumpPeer(b), steps)
 	}
@@ -1200,7 +1244,7 @@ func exec(op string) string {
 		return "skip"
 	}
 	switch f[0] {
-	case "ann", "wd", "rv", "burst", "sync", "pairs", "prestart", "reach", "unreach", "deliver", "timeout", "drain":
+	case "ann", "wd", "rv", "burst", "bulk", "sync", "pairs", "prestart", "reach", "unreach", "deliver", "timeout", "drain":
 		return execLog(f)
 	}
 	return "skip"
